@@ -56,6 +56,16 @@ pub fn gen_ell(rng: &mut Rng) -> Case {
         return Case::new("ell").u("depth", depth as u64).u("dd", dd as u64).f("lon", c.0).f("lat", c.1).f("a", a).f("b", b2).f("pa", pa2).u("s", rng.next() >> 1).s("cls", "singular-covariance@cell-centre");
       } }
     }
+    // semi-minor axis a hair above one of the bounding-cone radii of the descent (the crate's own per-depth cell radius bounds for this
+    // ellipse, public helper): "cell fully inside" is decided on an ellipse shrunk by that radius, whose minor axis is then ~0
+    if rng.below(8) == 0 && depth + dd > 0 {
+      let ds = if cdshealpix::has_best_starting_depth(a) { cdshealpix::best_starting_depth(a) } else { 0 };
+      if ds < depth + dd { if let Ok(ds_arr) = catch(|| cdshealpix::largest_center_to_vertex_distances_with_radius(ds, depth + dd + 1, lon, lat, a)) {
+        let cands: Vec<f64> = ds_arr.iter().cloned().filter(|&x| x < a && x > 0.0).collect();
+        if !cands.is_empty() { let r = *rng.pick(&cands); let b2 = (r * (1.0 + rng.log_uniform(1e-16, 1e-7))).min(a);
+          return Case::new("ell").u("depth", depth as u64).u("dd", dd as u64).f("lon", lon).f("lat", lat).f("a", a).f("b", b2).f("pa", pa).u("s", rng.next() >> 1).s("cls", "b-just-above-a-bounding-radius-of-the-descent"); }
+      } }
+    }
     return Case::new("ell").u("depth", depth as u64).u("dd", dd as u64).f("lon", any_turn(rng, lon)).f("lat", lat).f("a", a).f("b", b).f("pa", pa).u("s", rng.next() >> 1).s("cls", &format!("b/a~1e{}", (b / a).log10().floor() as i32));
   }
 }
@@ -121,6 +131,18 @@ pub fn judge(ctx: &mut Ctx, c: &Case) {
     let lim = a + 2.0 * cell_radius_bound(d);
     ctx.worst_max("(centre_distance - a) / cell_radius_bound", (dc - a) / cell_radius_bound(d));
     if dc > lim * (1.0 + 1e-12) { ctx.violation("reported-cell-farther-than-a+2-cell-radii", c.clone().u("cd", d as u64).u("ch", h), format!("cell {}/{} centre at {:e} > {:e}", d, h, dc, lim)); break; }
+    // an entry coarser than the query depth stands for all its sub-cells of the query depth: the four at its corners are judged as cells
+    // of the query depth (the BMOC is a set of cells of that depth)
+    if d < depth {
+      let sh = 2 * (depth - d) as u32; let mask = (1u64 << sh) - 1;
+      let limq = a + 2.0 * cell_radius_bound(depth);
+      for (nm, sub) in [("S", 0u64), ("E", mask & 0x5555_5555_5555_5555), ("W", mask & 0xAAAA_AAAA_AAAA_AAAA), ("N", mask)].iter() {
+        ctx.eval();
+        let hq = (h << sh) | sub; let dq = dist(ref_center(depth, hq), (lon, lat));
+        ctx.worst_max("(sub-cell centre_distance - a) / cell_radius_bound(query depth)", (dq - a) / cell_radius_bound(depth));
+        if dq > limq * (1.0 + 1e-12) { ctx.violation("reported-cell-farther-than-a+2-cell-radii", c.clone().u("cd", d as u64).u("ch", h).s("sub", nm), format!("entry {}/{} stands for the cell {}/{} ({} corner) whose centre is at {:e} > a + 2 cell radii = {:e} ({:.1} cell radii beyond a); {} entries", d, h, depth, hq, nm, dq, limq, (dq - a) / cell_radius_bound(depth), cells.len())); break; }
+      }
+    }
   }
   let tl = trans_lat();
   let dstart = if a < thr[0] { Some((0..30).rev().find(|&k| a < thr[k]).unwrap_or(0)) } else { None };
